@@ -1,6 +1,6 @@
 """C01 — decoding untrusted bytes is total (claimed in part): R-LIMIT, R-RAWINT, R-EOF, R-BLOCK."""
 from ..engine import Ctx, LIB_CRATES
-from . import rawint, limit, block, taintalloc, fieldrange, signidx
+from . import rawint, limit, block, taintalloc, fieldrange, signidx, searchunwrap
 
 
 def main(pid, tier, repo=None):
@@ -11,6 +11,8 @@ def main(pid, tier, repo=None):
         rawint.run(ctx, LIB_CRATES)
         fieldrange.run(ctx, LIB_CRATES)
         signidx.run(ctx, LIB_CRATES)
+        searchunwrap.run(ctx, LIB_CRATES)
+        searchunwrap.rule_pass_chain(ctx)
         limit.run(ctx, LIB_CRATES)
         taintalloc.run(ctx, LIB_CRATES)
         block.run_block(ctx, LIB_CRATES)
@@ -28,7 +30,9 @@ def main(pid, tier, repo=None):
     return ctx.finish(
         "The mechanisms the property names, decided on MIR for every input: (R-FIELDRANGE) header fields with a width-implied range never "
         "reach an overflow-checked operation, shift, division or fixed-size array index they can break (interval abstract interpretation; "
-        "found the `length-minus-header` panics D9-D11); (R-RAWINT) raw entropy-decoded integers never reach "
+        "found the `length-minus-header` panics D9-D11); (R-SEARCH-UNWRAP, R-PASS-CHAIN) no predicate search over decoded data is "
+        "unwrapped, and the one reviewed exception's invariant - the pass table is a complete chain - is kept by construction (found "
+        "D13-D15); (R-RAWINT) raw entropy-decoded integers never reach "
         "panicking 32-bit arithmetic, shift amounts, divisors, negation or abs() without a dominating ordering comparison - every "
         "report is a reachable panic because the stream chooses the integer configuration; (R-LIMIT) the named input limits exist as "
         "compare->error checks with the reviewed bound; (R-EOF) the bit counter is only decreased through checked_sub and end of data "
